@@ -995,7 +995,7 @@ inline bool comm::process_receive_queue() {
     }
   }
 
-  received_to_return != local_process_incoming();
+  received_to_return |= local_process_incoming();
 
   YGM_VERIF_HOOK("prq-", received_to_return, m_send_queue.size(), m_pending_isend_bytes);
   m_in_process_receive_queue = false;
